@@ -5534,11 +5534,19 @@ func (a *Agent) OpenShellStream(ctx context.Context, targetID identity.AgentID, 
 		// Stream opened successfully
 	}
 
+	// The stream is open at both ends from here on: a failure below releases
+	// it on both sides (client record, local stream record, the remote command).
+	abandon := func() {
+		a.cleanupShellClientStream(streamID)
+		a.WriteStreamClose(nextHop, streamID)
+		a.streamMgr.RemoveStream(streamID)
+	}
+
 	// Derive session key from ECDH with remote agent's ephemeral public key
 	sharedSecret, err := crypto.ComputeECDH(ephPriv, result.RemoteEphemeral)
 	if err != nil {
 		crypto.ZeroKey(&ephPriv)
-		a.cleanupShellClientStream(streamID)
+		abandon()
 		return nil, fmt.Errorf("compute ECDH: %w", err)
 	}
 
@@ -5556,14 +5564,14 @@ func (a *Agent) OpenShellStream(ctx context.Context, targetID identity.AgentID, 
 	// Encode metadata with shell message format (MsgMeta prefix)
 	metaBytes, err := shell.EncodeMeta(meta)
 	if err != nil {
-		a.cleanupShellClientStream(streamID)
+		abandon()
 		return nil, fmt.Errorf("encode shell metadata: %w", err)
 	}
 
 	// Encrypt metadata before sending
 	encryptedMeta, err := sessionKey.Encrypt(metaBytes)
 	if err != nil {
-		a.cleanupShellClientStream(streamID)
+		abandon()
 		return nil, fmt.Errorf("encrypt metadata: %w", err)
 	}
 
@@ -5574,7 +5582,7 @@ func (a *Agent) OpenShellStream(ctx context.Context, targetID identity.AgentID, 
 		Payload:  encryptedMeta,
 	}
 	if err := a.peerMgr.SendToPeer(nextHop, dataFrame); err != nil {
-		a.cleanupShellClientStream(streamID)
+		abandon()
 		return nil, fmt.Errorf("send metadata: %w", err)
 	}
 
